@@ -8,6 +8,7 @@ import (
 	"go/parser"
 	"go/printer"
 	"go/token"
+	"go/types"
 	"os"
 	"path/filepath"
 	"sort"
@@ -101,7 +102,52 @@ func genSrcTokens(repo string) (string, error) {
 		b.WriteString("Definition wc_cmp (v : Z) : bool := Z.ltb v 0.\nDefinition wc_cmp_is_lt := false.\n")
 	}
 	fmt.Fprintf(&b, "Definition SrcTokens_translator_ok := %v.\n", ok)
+	fmt.Fprintf(&b, "Definition edf_requeue_asks_weightfunc := %v.\n", edfRequeueShape(repo))
 	return b.String(), nil
+}
+
+// edfRequeueShape: edf.go re-queues the popped entry with the weight the weight function answers NOW
+// (Model/EdfVar.v edf_pickw):  NextAndPush has `weight := weightFunc(entry.item)` and its only assignment to
+// entry.deadline is `entry.deadline = entry.deadline + 1.0/weight` (or `+= 1.0/weight`); Add queues with
+// `deadline: edf.currentTime + 1.0/weight`.
+func edfRequeueShape(repo string) bool {
+	_, f, err := ParseGoFile(repo, "pkg/upstream/cluster/edf.go")
+	if err != nil {
+		return false
+	}
+	str := func(e ast.Expr) string { return strings.ReplaceAll(types.ExprString(e), " ", "") }
+	np := FindFunc(f, "edfScheduler", "NextAndPush")
+	ad := FindFunc(f, "edfScheduler", "Add")
+	if np == nil || ad == nil {
+		return false
+	}
+	asks, ndl, dlOK := false, 0, false
+	ast.Inspect(np.Body, func(n ast.Node) bool {
+		as, ok := n.(*ast.AssignStmt)
+		if !ok || len(as.Lhs) != 1 || len(as.Rhs) != 1 {
+			return true
+		}
+		l, r := str(as.Lhs[0]), str(as.Rhs[0])
+		if l == "weight" && as.Tok == token.DEFINE && r == "weightFunc(entry.item)" {
+			asks = true
+		} else if l == "weight" {
+			asks = false
+		}
+		if l == "entry.deadline" {
+			ndl++
+			dlOK = (as.Tok == token.ASSIGN && r == "entry.deadline+1.0/weight") || (as.Tok == token.ADD_ASSIGN && r == "1.0/weight")
+		}
+		return true
+	})
+	addOK := false
+	ast.Inspect(ad.Body, func(n ast.Node) bool {
+		kv, ok := n.(*ast.KeyValueExpr)
+		if ok && str(kv.Key) == "deadline" {
+			addOK = str(kv.Value) == "edf.currentTime+1.0/weight"
+		}
+		return true
+	})
+	return asks && ndl == 1 && dlOK && addOK
 }
 
 // ---------------------------------------------------------------------------
